@@ -28,17 +28,27 @@ class SpecMixin:
         loc.setdefault("$depth", 0)
         s0 = st.with_loc(loc)
         self.spec_mode += 1
+        self._undef_depth = getattr(self, "_undef_depth", 0) + 1
         saved_pol = getattr(self, "spec_polarity", "prove")
         self.spec_polarity = polarity
         try:
             outs = list(self.ev(node, s0))
         finally:
             self.spec_mode -= 1
+            self._undef_depth -= 1
             self.spec_polarity = saved_pol
         n = len(st.pc)
         res = None
+        some_value = any(not isinstance(v, RaiseV) and not is_bool(v) for _, v in outs)
         for s1, v in reversed(outs):
             if isinstance(v, RaiseV):
+                if some_value or getattr(self, "_undef_depth", 0) > 1:
+                    # an undefined (raising) non-boolean sub-expression: remembered, and charged to the enclosing
+                    # clause (must be unreachable when proving, makes the clause vacuous when assuming)
+                    base = getattr(self, "_undef_base", n)
+                    cond = list(s1.pc[base:])
+                    self.__dict__.setdefault("_undef", []).append(z3.And(*cond) if cond else z3.BoolVal(True))
+                    continue
                 # a path on which the specification itself raises: the clause says nothing there when it is
                 # assumed (weaker assumption) and is not met there when it has to be proved
                 v = z3.BoolVal(polarity == "assume")
@@ -49,14 +59,24 @@ class SpecMixin:
                 c = z3.And(*delta) if delta else z3.BoolVal(True)
                 res = self.merge(st, c, v, res)
         if res is None:
+            if getattr(self, "_undef", None):
+                return z3.BoolVal(polarity == "assume")
             raise SpecError("specification has no feasible evaluation (vacuous context): "
                             f"{text_or_ast if isinstance(text_or_ast, str) else ast.unparse(text_or_ast)}; pc feasible="
                             f"{self.feasible(st.pc)}")
         return res
 
     def spec_bool(self, st, text, env, polarity="prove", module=None):
-        v = self.spec_eval(st, text, env, polarity, module)
-        return self.truth(st, v)
+        top = getattr(self, "_undef_depth", 0) == 0
+        if top:
+            self._undef = []
+            self._undef_base = len(st.pc)
+        v = self.truth(st, self.spec_eval(st, text, env, polarity, module))
+        if top and self._undef:
+            u = z3.Or(*self._undef)
+            v = z3.And(v, z3.Not(u)) if polarity == "prove" else z3.Or(v, u)
+            self._undef = []
+        return v
 
     # ------------------------------------------------------------------ special forms (get unevaluated ASTs)
     def call_expr(self, e, st):
